@@ -13,7 +13,7 @@ from fractions import Fraction
 
 import sympy
 
-from .nf import NFEval, NAN
+from .nf import NFEval, NAN, Mono, Sum, PW, Struct
 
 
 class RatEval:
@@ -104,6 +104,22 @@ def _factor_list_rad(poly):
     return cont, [(f.subs(back), m) for f, m in fl]
 
 
+def _prime_factors(c, sign):
+    """A positive rational constant under a parameter-dependent power, as prime powers: 4**e and 2**e must share
+    their opaque symbol (4**e == (2**e)**2)."""
+    try:
+        c = sympy.nsimplify(c)
+        if c.is_Rational and c > 0:
+            out = []
+            for part, sg in ((c.p, sign), (c.q, -sign)):
+                for prime, k in sorted(sympy.factorint(part).items()):
+                    out.append((sympy.Integer(prime), sg * k))
+            return out
+    except Exception:
+        pass
+    return [(c, sign)]
+
+
 def refuted(expr):
     """Cheap, sound refutation: the expression (a polynomial / radical form in independent positive symbols) is
     NOT identically zero if it is non-zero at some point.  Two fixed pseudo-random rational points, 40 digits.
@@ -115,7 +131,7 @@ def refuted(expr):
         terms = list(expr.args) if expr.is_Add else [expr]
         for _ in range(2):
             vals = {x: sympy.Rational(rnd.randint(3, 89), rnd.randint(3, 89)) for x in syms}
-            tv = [t.subs(vals) for t in terms]
+            tv = [t.xreplace(vals) for t in terms]
             if all(v.is_Rational for v in tv):
                 if sum(tv) != 0:                      # exact rational arithmetic
                     return True
@@ -158,6 +174,40 @@ def is_zero(expr):
     return sympy.expand(num) == 0
 
 
+def exponent_lcm(ev, xs):
+    """lcm of the denominators of every parameter-dependent exponent in the normal forms xs (through sum atoms and
+    function arguments) -- the common denominator for NFSym.common_den."""
+    seen, out = set(), [None]
+
+    def walk(x):
+        if x is None or isinstance(x, (PW, Struct)) or not hasattr(x, 'key'):
+            return
+        if isinstance(x, Sum):
+            for t in x.terms:
+                walk(t)
+            return
+        for k, e in x.f.items():
+            try:
+                if not e.denom.is_ground:
+                    d = e.denom.primitive()[1]
+                    if d.LC < 0:
+                        d = -d
+                    out[0] = d if out[0] is None else out[0].lcm(d)
+            except Exception:
+                pass
+            if k in seen:
+                continue
+            seen.add(k)
+            if k in ev.sums:
+                walk(ev.sums[k])
+            elif k in ev.funcs:
+                for a in ev.funcs[k][1:]:
+                    walk(a)
+    for x in xs:
+        walk(x)
+    return out[0]
+
+
 class NFSym:
     """Monomial normal forms -> sympy expressions with ONE naming scheme for atoms: every
     `atom ** exponent` factor with a constant rational exponent becomes (expr of the atom) ** q,
@@ -174,6 +224,7 @@ class NFSym:
         self.ambiguous = []     # powers whose sign decomposition was not determined
         self.powdef = {}        # opaque power symbol -> (base factor expr, exponent shape as field element)
         self.orient = None      # optional callable: sympy polynomial factor -> -1 if it is negative on the domain
+        self.common_den = None  # optional ring element: every exponent is decomposed over this one denominator
 
     def sym(self, key):
         if key not in self.syms:
@@ -236,10 +287,21 @@ class NFSym:
         if depth > 6:
             return self.sym('%s^(%s)' % (label, e))
         field = e.parent()
+        e_numer, e_denom = e.numer, e.denom
+        if self.common_den is not None:
+            # exponents with several multivariate denominators: N -> (quotient, remainder) of the division by ONE
+            # polynomial in a fixed term order is linear, so decomposing every exponent over the same common
+            # denominator is additive (partial fractions are not canonical in several variables)
+            try:
+                cq, cr = self.common_den.div(e_denom)
+                if cr == 0:
+                    e_numer, e_denom = e_numer * cq, self.common_den
+            except Exception:
+                pass
         # partial fractions first: 1/(g (g-1)) = 1/(g-1) - 1/g, so that exponents whose denominators share
         # factors are decomposed over the same shapes
         try:
-            if not e.denom.is_ground:
+            if self.common_den is None and not e.denom.is_ground:
                 dex = e.denom.as_expr()
                 fsyms = list(dex.free_symbols)
                 if len(fsyms) == 1 and len(sympy.factor_list(dex)[1]) > 1:
@@ -252,13 +314,13 @@ class NFSym:
         except Exception:
             pass
         try:
-            quo, rem = e.numer.div(e.denom)
-            ring = e.numer.ring
+            quo, rem = e_numer.div(e_denom)
+            ring = e_numer.ring
             # primitive denominator: 1/(4b+10) and 1/(2b+5) are the same exponent shape (coefficient 1/2, 1)
-            dcont = e.denom.content()
-            if e.denom.LC < 0:
+            dcont = e_denom.content()
+            if e_denom.LC < 0:
                 dcont = -dcont
-            dprim = e.denom.quo_ground(dcont) if dcont != 1 else e.denom
+            dprim = e_denom.quo_ground(dcont) if dcont != 1 else e_denom
             dtxt = str(dprim)
             dscale = sympy.Rational(int(dcont.numerator), int(dcont.denominator)) if hasattr(dcont, 'numerator') else sympy.Rational(int(dcont))
             parts = []          # (rational coefficient, shape key or None for a plain rational power, shape as field element)
@@ -270,8 +332,8 @@ class NFSym:
                     mono_f = field(ring.term_new(monom, ring.domain.one))
                     if den == '1' and not any(monom):
                         parts.append((c, None, None))
-                    elif den != '1' and e.denom.is_ground:
-                        d0 = e.denom.LC
+                    elif den != '1' and e_denom.is_ground:
+                        d0 = e_denom.LC
                         c = c / sympy.Rational(int(d0.numerator), int(d0.denominator))
                         parts.append((c, None, None) if not any(monom) else (c, '%s/1' % (monom,), mono_f))
                     elif den == '1':
@@ -288,7 +350,7 @@ class NFSym:
             if poly == 1:
                 continue
             if poly.is_number:
-                factors.append((poly, sign))
+                factors.extend(_prime_factors(poly, sign))
                 continue
             try:
                 cont, fl = _factor_list_rad(poly)
@@ -317,7 +379,7 @@ class NFSym:
                 fl[pick] = (sympy.expand(-fl[pick][0]), fl[pick][1])
                 cont = -cont
             if cont != 1:
-                factors.append((cont, sign))
+                factors.extend(_prime_factors(cont, sign))
             for f, m in fl:
                 if f.is_Pow and f.base.is_Symbol and f.exp.is_Rational:
                     f, m = f.base, m * f.exp                     # sqrt(x)**e = x**(e/2)
